@@ -280,7 +280,7 @@ func (self *Interpreter) infixHelper(lhs ast.AnalyzedExpression, rhs ast.Analyze
 		case pAst.ModuloInfixOperator:
 			intRes = lhsInt.Inner % rhsInt.Inner
 		case pAst.PowerInfixOperator:
-			intRes = int64(math.Pow(float64(lhsInt.Inner), float64(rhsInt.Inner)))
+			intRes = value.IntPow(lhsInt.Inner, rhsInt.Inner)
 		case pAst.ShiftLeftInfixOperator:
 			intRes = lhsInt.Inner << rhsInt.Inner
 		case pAst.ShiftRightInfixOperator:
